@@ -182,13 +182,14 @@ def cmd_check(pid, tier):
         known, _ = load_known()
         os.makedirs(os.path.join(VERIF, "replays"), exist_ok=True)
         viol_lines, known_lines, new_viol = [], [], 0
+        extra_fps = []
         for key, f in sorted(tot["found"].items()):
             k = next((k for k in known if k["property"] == pid and k["fp"] == f["fingerprint"]), None)
             if k:
                 known_lines.append("KNOWN-FINDING: property=%s fp=%s %s (seen %d times; e.g. seed %d)" % (pid, f["fingerprint"], k["what"], f["count"], f["seed"]))
                 continue
             if not f.get("replay"):
-                infra.append("violation %s without a replay file" % key)
+                extra_fps.append("%s (seed %d %s): %s" % (key, f["seed"], f.get("params") or "", f["detail"][:200]))
                 continue
             dst = os.path.join(VERIF, "replays", os.path.basename(f["replay"]))
             shutil.copy(f["replay"], dst)
@@ -258,6 +259,11 @@ def cmd_check(pid, tier):
             json.dump(ev, f, indent=1, sort_keys=False)
         for l in known_lines: print(l)
         for l in viol_lines: print(l)
+        if extra_fps:
+            if new_viol == 0:
+                infra.append("violations without a minimised replay: %s" % extra_fps[:3])
+            print("further violation fingerprints seen (not minimised, same run): %d" % len(extra_fps))
+            for x in extra_fps[:8]: print("   ", x)
         print("%s %s: seeds=%d execs=%d distinct=%d interleavings=%d steps=%d sim=%.1fs wall=%.1fs violations=%d known=%d" % (
             pid, tier, tot["seeds"], tot["execs"], len(keys), len(tot["il_hashes"]), tot["steps"], tot["sim_ns"] / 1e9, wall, new_viol, len(known_lines)))
         if infra:
